@@ -1,7 +1,363 @@
-//! C14 driver (stub: not built yet).
-use crate::trace::Args;
+//! C14 driver: kernel_gauss / kernel_lanczos of yamaquasi::matrix::gf2 on
+//!  * explicit small matrices printed by spec/gf2/Gf2Gen.tla (`--mats`), and
+//!  * matrices built here, with seeded randomness, from the abstract shapes enumerated by
+//!    spec/gf2/Gf2Shapes.tla (`--shapes`): rows, columns, planted corank, density profile,
+//!    zero / duplicate columns.
+//!
+//! One event per call: the matrix (columns as lists of row indices), the returned vectors (lists
+//! of column indices), and certificates that let the trace specification (spec/gf2/Gf2Trace.tla)
+//! decide independence and the size of the family without searching.  Nothing is judged here: the
+//! eliminations below only *produce witnesses* that TLC verifies.
 
-pub fn run(_args: &Args) -> i32 {
-    eprintln!("driver c14 not built yet");
-    2
+use rand::rngs::StdRng;
+use rand::seq::SliceRandom;
+use rand::Rng;
+use serde_json::{json, Value};
+
+use yamaquasi::matrix::gf2::{kernel_gauss, kernel_lanczos, SparseMat};
+use yamaquasi::Verbosity;
+
+use crate::gen::rng_for;
+use crate::trace::*;
+
+// ---------------------------------------------------------------------------------------------
+// bit vectors of the harness (independent of the library's BitVec)
+
+type Bits = Vec<u64>;
+
+fn words(n: usize) -> usize {
+    (n + 63) / 64
+}
+fn bget(v: &Bits, i: usize) -> bool {
+    (v[i / 64] >> (i % 64)) & 1 == 1
+}
+fn bflip(v: &mut Bits, i: usize) {
+    v[i / 64] ^= 1u64 << (i % 64);
+}
+fn bxor(a: &mut Bits, b: &Bits) {
+    for (x, y) in a.iter_mut().zip(b.iter()) {
+        *x ^= *y;
+    }
+}
+fn bzero(v: &Bits) -> bool {
+    v.iter().all(|&w| w == 0)
+}
+fn blowest(v: &Bits) -> Option<usize> {
+    for (i, &w) in v.iter().enumerate() {
+        if w != 0 {
+            return Some(64 * i + w.trailing_zeros() as usize);
+        }
+    }
+    None
+}
+fn bindices(v: &Bits) -> Vec<usize> {
+    let mut r = vec![];
+    for (i, &w) in v.iter().enumerate() {
+        let mut w = w;
+        while w != 0 {
+            r.push(64 * i + w.trailing_zeros() as usize);
+            w &= w - 1;
+        }
+    }
+    r
+}
+fn from_indices(idx: &[usize], n: usize) -> Bits {
+    let mut v = vec![0u64; words(n)];
+    for &i in idx {
+        bflip(&mut v, i);
+    }
+    v
+}
+
+/// Sequential elimination with combination tracking (witness producer).
+/// For every input vector, in order: it is reduced by the previously kept ones; if something is
+/// left it is kept with a pivot coordinate that no later reduced vector contains.
+struct Elim {
+    /// per input vector: Some(pivot) if it was independent of the previous ones
+    piv: Vec<Option<usize>>,
+    /// per input vector: the set of input indices whose sum is the reduced vector (zero for dependent ones)
+    combo: Vec<Bits>,
+}
+
+fn eliminate(vecs: &[Bits], nvec_words: usize) -> Elim {
+    let mut kept: Vec<(usize, Bits, Bits)> = vec![]; // (pivot, reduced vector, combination)
+    let mut piv = vec![];
+    let mut combo = vec![];
+    for (i, v) in vecs.iter().enumerate() {
+        let mut x = v.clone();
+        let mut c = vec![0u64; nvec_words];
+        bflip(&mut c, i);
+        for (p, y, cy) in kept.iter() {
+            if bget(&x, *p) {
+                bxor(&mut x, y);
+                bxor(&mut c, cy);
+            }
+        }
+        match blowest(&x) {
+            Some(p) => {
+                kept.push((p, x, c.clone()));
+                piv.push(Some(p));
+            }
+            None => piv.push(None),
+        }
+        combo.push(c);
+    }
+    Elim { piv, combo }
+}
+
+// ---------------------------------------------------------------------------------------------
+// matrices
+
+struct Mat {
+    nrows: usize,
+    /// sorted, duplicate-free row indices of every column
+    cols: Vec<Vec<usize>>,
+}
+
+fn column(rng: &mut StdRng, nrows: usize, profile: &str) -> Bits {
+    let mut v = vec![0u64; words(nrows)];
+    match profile {
+        // heavy low rows, sparse tail: row i is present with probability min(1/2, 6/(i+1))
+        "sieve" => {
+            for i in 0..nrows {
+                let p = (6.0 / (i as f64 + 1.0)).min(0.5);
+                if rng.gen_bool(p) {
+                    bflip(&mut v, i);
+                }
+            }
+        }
+        // every row equally likely, a few entries per column
+        "uniform" => {
+            let w = rng.gen_range(1..=24usize).min(nrows);
+            let mut left = w;
+            while left > 0 {
+                let i = rng.gen_range(0..nrows);
+                if !bget(&v, i) {
+                    bflip(&mut v, i);
+                    left -= 1;
+                }
+            }
+        }
+        // every entry with probability 1/2
+        "dense" => {
+            for i in 0..nrows {
+                if rng.gen_bool(0.5) {
+                    bflip(&mut v, i);
+                }
+            }
+        }
+        _ => panic!("unknown profile {}", profile),
+    }
+    v
+}
+
+/// Matrix for an abstract shape: `ncols - corank - nzero - ndup` random columns with the profile,
+/// `corank` columns that are sums of random subsets of them, zero columns, copies of earlier
+/// columns; shuffled.  (The true rank is whatever it is: nobody relies on the construction.)
+fn build(rng: &mut StdRng, sh: &Value) -> Mat {
+    let g = |k: &str| sh[k].as_u64().unwrap_or(0) as usize;
+    let (nrows, ncols) = (g("nrows"), g("ncols"));
+    let profile = sh["profile"].as_str().unwrap();
+    let nzero = g("nzero").min(ncols);
+    let ndup = g("ndup").min(ncols - nzero);
+    let ndep = g("corank").min(ncols - nzero - ndup);
+    let nfree = ncols - nzero - ndup - ndep;
+    let mut cols: Vec<Bits> = vec![];
+    for _ in 0..nfree {
+        cols.push(column(rng, nrows, profile));
+    }
+    for t in 0..ndep {
+        let mut v = vec![0u64; words(nrows)];
+        if nfree > 0 {
+            // mostly short combinations (keeps the profile), every fourth one a long one
+            let long = t % 4 == 3;
+            if long {
+                for j in 0..nfree {
+                    if rng.gen_bool(0.5) {
+                        let c = cols[j].clone();
+                        bxor(&mut v, &c);
+                    }
+                }
+            } else {
+                let s = rng.gen_range(1..=8usize).min(nfree);
+                for _ in 0..s {
+                    let j = rng.gen_range(0..nfree);
+                    let c = cols[j].clone();
+                    bxor(&mut v, &c);
+                }
+            }
+        }
+        cols.push(v);
+    }
+    for _ in 0..nzero {
+        cols.push(vec![0u64; words(nrows)]);
+    }
+    for _ in 0..ndup {
+        if cols.is_empty() {
+            cols.push(column(rng, nrows, profile));
+        } else {
+            let j = rng.gen_range(0..cols.len());
+            let c = cols[j].clone();
+            cols.push(c);
+        }
+    }
+    cols.shuffle(rng);
+    Mat { nrows, cols: cols.iter().map(bindices).collect() }
+}
+
+fn explicit(m: &Value) -> Mat {
+    let nrows = m["nrows"].as_u64().unwrap() as usize;
+    let cols: Vec<Vec<usize>> = m["cols"]
+        .as_array()
+        .unwrap()
+        .iter()
+        .map(|c| {
+            let mut v: Vec<usize> = c.as_array().unwrap().iter().map(|x| x.as_u64().unwrap() as usize).collect();
+            v.sort_unstable();
+            v.dedup();
+            v
+        })
+        .collect();
+    Mat { nrows, cols }
+}
+
+// ---------------------------------------------------------------------------------------------
+// calls into the library
+
+/// kernel_gauss takes and returns the library's bit-vector type; it is reached here through the
+/// conversions that type offers (from an iterator of booleans, into the list of set positions),
+/// so that the harness needs no dependency of its own on the bit-vector crate.
+fn call_gauss<T>(f: fn(Vec<T>) -> Vec<T>, nrows: usize, cols: &[Vec<usize>]) -> Vec<Vec<usize>>
+where
+    T: From<std::vec::IntoIter<bool>> + Into<Vec<usize>>,
+{
+    let input: Vec<T> = cols
+        .iter()
+        .map(|c| {
+            let mut b = vec![false; nrows];
+            for &i in c {
+                b[i] = true;
+            }
+            T::from(b.into_iter())
+        })
+        .collect();
+    f(input).into_iter().map(|v| v.into()).collect()
+}
+
+fn merge(mut base: Value, extra: Value) -> Value {
+    if let (Some(b), Some(e)) = (base.as_object_mut(), extra.as_object()) {
+        for (k, v) in e {
+            b.insert(k.clone(), v.clone());
+        }
+    }
+    base
+}
+
+/// Certificates for a family K of vectors over `n` coordinates:
+///  "priv": for each vector a coordinate that it has and no other vector of K has, or
+///  "dep":  a non-empty set of members of K whose sum is zero, or
+///  "tri":  reduced vectors (as combinations of members of K) in triangular position.
+fn independence_certificate(k: &[Vec<usize>], n: usize) -> Value {
+    let mut cnt = vec![0u32; n];
+    for v in k {
+        for &i in v {
+            if i < n {
+                cnt[i] += 1;
+            }
+        }
+    }
+    let privs: Vec<Option<usize>> = k.iter().map(|v| v.iter().copied().find(|&i| i < n && cnt[i] == 1)).collect();
+    if privs.iter().all(|p| p.is_some()) {
+        return json!({"priv": privs.iter().map(|p| p.unwrap()).collect::<Vec<_>>()});
+    }
+    if k.iter().any(|v| v.iter().any(|&i| i >= n)) {
+        return json!({}); // out of range indices: the membership clause speaks about it
+    }
+    let vecs: Vec<Bits> = k.iter().map(|v| from_indices(v, n)).collect();
+    let el = eliminate(&vecs, words(k.len()));
+    if let Some(i) = el.piv.iter().position(|p| p.is_none()) {
+        return json!({"dep": bindices(&el.combo[i])});
+    }
+    let tri: Vec<Value> = (0..k.len()).map(|i| json!({"combo": bindices(&el.combo[i]), "piv": el.piv[i].unwrap()})).collect();
+    json!({"tri": tri})
+}
+
+fn gauss_event(out: &mut Out, case: &str, sh: &Value, mat: &Mat, deadline: f64) {
+    let (nrows, ncols) = (mat.nrows, mat.cols.len());
+    let base = json!({"op": "kernel_gauss", "case": case, "shape": sh, "nrows": nrows, "ncols": ncols, "m": mat.cols});
+    let cols = mat.cols.clone();
+    let r = guard_deadline(deadline, move || call_gauss(kernel_gauss, nrows, &cols));
+    let k = match r {
+        Ok(k) => k,
+        Err(o) => {
+            out.ev(merge(base, o));
+            return;
+        }
+    };
+    let mut ev = merge(base, json!({"k": k}));
+    ev = merge(ev, independence_certificate(&k, ncols));
+    // the harness's own elimination: informational rank, and a counter-witness (a larger
+    // independent family inside the kernel) if the library returned fewer vectors than that
+    let vecs: Vec<Bits> = mat.cols.iter().map(|c| from_indices(c, nrows)).collect();
+    let el = eliminate(&vecs, words(ncols));
+    let hrank = el.piv.iter().filter(|p| p.is_some()).count();
+    ev = merge(ev, json!({"hrank": hrank}));
+    if ncols - hrank > k.len() {
+        let mut wit = vec![];
+        let mut wpriv = vec![];
+        for j in 0..ncols {
+            if el.piv[j].is_none() {
+                wit.push(bindices(&el.combo[j]));
+                wpriv.push(j);
+            }
+        }
+        ev = merge(ev, json!({"wit": wit, "wpriv": wpriv}));
+    }
+    out.ev(ev);
+}
+
+fn lanczos_event(out: &mut Out, case: &str, sh: &Value, mat: &Mat, rep: u64, deadline: f64) {
+    let (nrows, ncols) = (mat.nrows, mat.cols.len());
+    let base = json!({"op": "kernel_lanczos", "case": case, "rep": rep, "shape": sh, "nrows": nrows, "ncols": ncols, "m": mat.cols});
+    let sm = SparseMat { k: nrows, cols: mat.cols.clone() };
+    let r = guard_deadline(deadline, move || {
+        kernel_lanczos(&sm, Verbosity::Silent).into_iter().map(|v| v.into_usizes()).collect::<Vec<Vec<usize>>>()
+    });
+    match r {
+        Ok(k) => out.ev(merge(base, json!({"k": k}))),
+        Err(o) => out.ev(merge(base, o)),
+    }
+}
+
+pub fn run(args: &Args) -> i32 {
+    let seed = arg_u64(args, "seed", 1);
+    let reps = arg_u64(args, "reps", 3);
+    let mut out = Out::create(arg_str(args, "out", "trace.ndjson"));
+    let mut rng = rng_for(seed, "c14");
+    // explicit small matrices from the TLA+ generator
+    if let Some(p) = args.get("mats") {
+        for (i, m) in read_ndjson(p).iter().enumerate() {
+            let mat = explicit(m);
+            let info = json!({"gen": m["name"], "corank": m["corank"]});
+            gauss_event(&mut out, &format!("gen/{}/{}", i, m["name"].as_str().unwrap_or("?")), &info, &mat, 600.0);
+        }
+    }
+    // abstract shapes concretised here
+    if let Some(p) = args.get("shapes") {
+        for (i, sh) in read_ndjson(p).iter().enumerate() {
+            let mat = build(&mut rng, sh);
+            match sh["alg"].as_str().unwrap() {
+                "gauss" => gauss_event(&mut out, &format!("gauss/{}", i), sh, &mat, 3600.0),
+                "lanczos" => {
+                    for rep in 0..reps {
+                        lanczos_event(&mut out, &format!("lanczos/{}", i), sh, &mat, rep, 3600.0);
+                    }
+                }
+                a => panic!("unknown alg {}", a),
+            }
+        }
+    }
+    let n = out.finish();
+    println!("{}", json!({"events": n}));
+    0
 }
